@@ -1144,6 +1144,9 @@ func NewInputObject(config InputObjectConfig) *InputObject {
 	if gt.err = invariant(config.Name != "", "Type must be named."); gt.err != nil {
 		return gt
 	}
+	if gt.err = assertValidName(config.Name); gt.err != nil {
+		return gt
+	}
 
 	gt.PrivateName = config.Name
 	gt.PrivateDescription = config.Description
@@ -1155,6 +1158,7 @@ func (gt *InputObject) defineFieldMap() InputObjectFieldMap {
 	var (
 		fieldMap InputObjectConfigFieldMap
 		err      error
+		nameErr  error
 	)
 	switch fields := gt.typeConfig.Fields.(type) {
 	case InputObjectConfigFieldMap:
@@ -1176,6 +1180,9 @@ func (gt *InputObject) defineFieldMap() InputObjectFieldMap {
 			continue
 		}
 		if err = assertValidName(fieldName); err != nil {
+			// the field is left out, but an illegal field name is a malformed
+			// type: the error is kept for NewSchema to report
+			nameErr = err
 			continue
 		}
 		if gt.err = invariantf(
@@ -1190,6 +1197,9 @@ func (gt *InputObject) defineFieldMap() InputObjectFieldMap {
 		field.PrivateDescription = fieldConfig.Description
 		field.DefaultValue = fieldConfig.DefaultValue
 		resultFieldMap[fieldName] = field
+	}
+	if nameErr != nil {
+		gt.err = nameErr
 	}
 	gt.init = true
 	return resultFieldMap
